@@ -311,7 +311,7 @@ func (x *Exec) zeroElems(st *State, elem types.Type, arr Term) {
 	for i, l := range leafShape(elem) {
 		name := "E." + typeName(elem) + l.suffix
 		s := arrSort(SRef, arrSort(SInt, l.sort))
-		x.setArr(st, name, s, Store(x.arr(st, name, s), arr, "((as const "+arrSort(SInt, l.sort)+") "+zs[i]+")"))
+		x.setArr(st, name, s, Store(x.arr(st, name, s), arr, "((as const "+arrSort(SInt, l.sort)+") "+constLit(zs[i])+")"))
 	}
 }
 
@@ -430,10 +430,19 @@ func (x *Exec) appendOp(fr *Frame, st *State, s, xs Value, rt types.Type, xsLen 
 			}
 		} else {
 			fa := m.fresh("appended", arrSort(SInt, l.sort))
-			old := m.def("olda", arrSort(SInt, l.sort), Select(E, sv.Arr))
+			// a declared constant (not a definition), so that it may appear in a pattern
+			old := m.fresh("olda", arrSort(SInt, l.sort))
+			m.assume(Eq(old, Select(E, sv.Arr)))
 			oldx := m.def("oldx", arrSort(SInt, l.sort), Select(E, xv.Arr))
-			m.assume(fmt.Sprintf("(forall ((j Int)) (! (=> (and (<= 0 j) (< j %s)) (= (select %s j) (select %s (+ %s j)))) :pattern ((select %s j))))", sv.Len, fa, old, sv.Off, fa))
-			m.assume(fmt.Sprintf("(forall ((j Int)) (=> (and (<= 0 j) (< j %s)) (= (select %s (+ %s j)) (select %s (+ %s j)))))", xv.Len, fa, sv.Len, oldx, xv.Off))
+			m.assume(fmt.Sprintf("(forall ((j Int)) (! (=> (and (<= 0 j) (< j %s)) (= (select %s j) (select %s %s))) :pattern ((select %s j)) :pattern ((select %s %s))))", sv.Len, fa, old, x.sliceIdx(sv.Off, "j"), fa, old, x.sliceIdx(sv.Off, "j")))
+			if xsLen >= 0 && xsLen <= 4 {
+				// a known small number of appended values: ground facts instead of a quantifier
+				for k := 0; k < xsLen; k++ {
+					m.assume(Eq(Select(fa, addT(sv.Len, IntLit(int64(k)))), Select(oldx, x.sliceIdx(xv.Off, IntLit(int64(k))))))
+				}
+			} else {
+				m.assume(fmt.Sprintf("(forall ((j Int)) (=> (and (<= 0 j) (< j %s)) (= (select %s (+ %s j)) (select %s (+ %s j)))))", xv.Len, fa, sv.Len, oldx, xv.Off))
+			}
 			na = fa
 		}
 		x.setArr(st, name, s2, Store(E, arr, na))
@@ -697,4 +706,13 @@ func (x *Exec) safe(fr *Frame, st *State, goal Term, kind string, pos token.Pos,
 	}
 	o := &Obligation{Kind: "safe", Fn: x.fnKey, Anchor: kind, Label: label, PC: st.pc, Goal: goal, Src: what + ": " + label, Pos: ps}
 	x.addObligation(o)
+}
+
+// constLit spells a zero value so that every solver accepts it inside (as const ...):
+// cvc5 wants a value there, not a defined name.
+func constLit(t Term) Term {
+	if t == NilRef {
+		return "(base 0)"
+	}
+	return t
 }
